@@ -557,6 +557,22 @@ static void gen(Emitter &em, const Options &opt) {
         join(ops, shl_num(rng, g, 0, which)); join(ops, shl_num(rng, g, 0, which)); join(ops, "s0,1,d");
         out.hist("shl.num", ops);
     }
+    // numbers whose rendering ends exactly at, one before and one after the capacity (256, then the doubled heap blocks):
+    // a rendering made in place in the unused tail needs its terminator too (seeded C13-G), a sign needs its own byte (C16-G)
+    for (int which = 0; which < 8; ++which) for (size_t cap : {(size_t)256, (size_t)512, (size_t)1024}) for (int rep = 0; rep < (thorough ? 12 : 3); ++rep) {
+        G scratch; scratch.live[0] = true;
+        std::string op = shl_num(rng, scratch, 0, which);
+        size_t len = (op.size() - op.find(':') - 1) / 2;
+        for (int d = -1; d <= 1; ++d) {
+            if (cap < len + 1) continue;
+            G g; g.live[0] = true; std::string ops = "D0";
+            size_t pre = cap - len + d;
+            if (pre) join(ops, app(rng, g, 0, pre));
+            join(ops, op); g.size[0] += len;
+            join(ops, app(rng, g, 0, 1)); join(ops, "s0,1,d");
+            out.hist("shl.num.edge", ops);
+        }
+    }
     for (int c = -128; c < 128; c += (thorough ? 1 : 5)) {
         std::string ops = "D0;o0,char," + S(c) + ";c0,3," + S(c) + ";s0,1,a;s0,0,d;s0,1,s";
         out.hist("shl.char", ops);
